@@ -8,11 +8,17 @@ claimed = {
  "C06": ("kctl", "seeded crash/restart and status-write-fault injection (before/after every write, between events) with steal-at-write, recorded-address-kept, memory=status and bounded-quiescence oracles"),
  "C07": ("kctl", "brute-force admissibility oracle for every pending Service at every quiescence"),
  "C11": ("kctl", "counter oracle (own usable/usage count, saturating) and bookkeeping == fresh rebuild after every handler call"),
+ "C04": ("kspk", "at every quiescence of a simulated cluster of real speakers: per address exactly one announcer iff an eligible node exists, announcer eligible, sharers agree (eligibility from raw API objects, election not mirrored)"),
+ "C05": ("kspk", "at every quiescence: per (node, peer) the recorded route set with attributes equals the set computed from raw API objects; sessions exist exactly for selected peers; per-service peer report exact"),
+ "C09": ("kspk", "at every quiescence: what each speaker announces (L2 decisions, announcer content, BGP routes) equals a fresh speaker booted in-simulation on the final state, and the specification"),
+ "C10": ("kspk", "at every quiescence: node announces a service over BGP iff eligible per raw API objects (advertisement selection, node condition/label, endpoint readiness conjunction, traffic policy)"),
+ "C12": ("kspk", "between consecutive quiescences: an address never moves between two nodes eligible before and after the perturbation (real eligibility-changing mechanisms: crashes, node flags, selectors, endpoints)"),
+ "C18": ("kspk", "fork check at every quiescence: fresh ConfigReconcilers over the same snapshot under drawn List permutations and map orders agree (DeepEqual) or all reject, recomputation looks unchanged; unrelated events never reach the handler"),
 }
 na = {
  "C08": "pure function of its input (config.For/toConfig): no schedule, clock, fault or interleaving for a simulator to vary; belongs to property-based testing/SMT (DESIGN.md §5)",
 }
-pending = ["C04","C05","C09","C10","C12","C13","C14","C15","C16","C17","C18","C19","C20"]
+pending = ["C13","C14","C15","C16","C17","C19","C20"]
 checks=[]
 for pid,(eng,txt) in sorted(claimed.items()):
     checks.append({
@@ -30,7 +36,7 @@ m={
  "version":1,
  "setup_cmd":"./setup.sh",
  "hooks":{"guard":"verif","enable":"go test -tags verif -overlay <generated> -modfile <scratch go.mod>: harness files, export shims and the simulation library are added by overlay; sources are rewritten at check time by bin/simbuild (map-range order, sync, go statements, call substitutions); nothing is committed to /repo","baseline_off_cmd":"for m in $(cat /w/out/gomods.txt); do MF=$(cd /repo/$m && . /w/out/goenv.sh && gomodflag); (cd /repo/$m && go test $MF -json -vet=off -count=1 -timeout 25m ./...); done","source_commits":[],"add_only":True},
- "engines":[{"name":"kctl","path":"harness/controller","serves_properties":sorted(claimed),"kind_free_text":"single-goroutine discrete-event simulation of the controller process: real controller/allocator/reconcilers over a simulated API server, informer cache and work queues; nested scheduling at handler granularity; crash/restart and API write faults"}],
+ "engines":[{"name":"kspk","path":"harness/speaker","serves_properties":["C04","C05","C09","C10","C12","C18"],"kind_free_text":"single-goroutine discrete-event simulation of N speaker processes (real speaker controller, layer2/bgp controllers, reconcilers) over one simulated API server with per-speaker informer caches and queues, simulated memberlist, recording BGP session manager; speaker crash/restart, false suspicion, lag, reordering"},{"name":"kctl","path":"harness/controller","serves_properties":["C01","C02","C03","C06","C07","C11"],"kind_free_text":"single-goroutine discrete-event simulation of the controller process: real controller/allocator/reconcilers over a simulated API server, informer cache and work queues; nested scheduling at handler granularity; crash/restart and API write faults"}],
  "checks":checks,
  "not_applicable":[{"property_id":k,"reason":v} for k,v in na.items()]+[{"property_id":p,"reason":"check not built yet in this session (engine under construction, see DESIGN.md §8); not claimed"} for p in pending],
  "notes":"Genuine defects repaired in /repo are 'fix:' commits listed in known_findings.json under fixed; recorded ones under findings."
